@@ -148,6 +148,8 @@ func vclockWithin(d int64)              {}
 func vclockFreeze()                     {}
 func vsymbolic() bool                   { return true }
 func vreadvPush(n int)                  {}
+func vfdWrites() int                    { return 0 }
+func vfdWrite(i int) []byte             { return nil }
 `
 	}
 	return "package " + pkg + `
@@ -255,6 +257,8 @@ func vclockWithin(d int64)    {}
 func vclockFreeze()           {}
 func vsymbolic() bool         { return false }
 func vreadvPush(n int)        {}
+func vfdWrites() int          { return 0 }
+func vfdWrite(i int) []byte   { return nil }
 func vparam(name string, def int) int {
 	vload()
 	if v, ok := vparams[name]; ok {
